@@ -115,18 +115,20 @@ void vf_havoc_except(void *p, const char *type_name, const char *skip)
 	for (int i = 0; i < n; i++) if (k[i] != 'p' && !has_prefix(lay_names[i], skip)) memset((char *) p + o[i], 0x5A, (size_t) s[i]);
 }
 void vf_havoc(void *p, const char *type_name) { vf_havoc_except(p, type_name, ""); }
-void vf_same_scalars(const char *label, void *a, void *b, const char *type_name)
+void vf_same_scalars_except(const char *label, void *a, void *b, const char *type_name, const char *skip)
 {
 	long *o, *s; char *k; int n = load_layout(type_name, &o, &s, &k), bad = 0;
 	for (int i = 0; i < n; i++)
 	{
 		int diff;
+		if (has_prefix(lay_names[i], skip)) continue;
 		if (k[i] == 'p') diff = ((*(void **) ((char *) a + o[i])) == 0) != ((*(void **) ((char *) b + o[i])) == 0);
 		else diff = memcmp((char *) a + o[i], (char *) b + o[i], (size_t) s[i]) != 0;
 		if (diff) { bad++; if (bad <= 20) printf("EVENT %s.differs_at_offset %ld %ld\n", label, o[i], s[i]); }
 	}
 	printf("CHECK %s %d\n", label, bad == 0); fflush(stdout);
 }
+void vf_same_scalars(const char *label, void *a, void *b, const char *type_name) { vf_same_scalars_except(label, a, b, type_name, ""); }
 
 #ifdef VF_ENTRY
 void VF_ENTRY(void);
